@@ -85,6 +85,44 @@ theorem c06_cdc_frag_indep {σ : Type} (A : Cdc σ) (h : CdcOk A) (d : Bytes) (f
     cdcChunks A { data := d, frags := f2, eofWithData := e2 } := by
   rw [cdcChunks_eq A h, cdcChunks_eq A h]
 
+/-! ### rabin: the transcribed `whyrusleeping/chunker` loop (`Next()`), fingerprint automaton as a parameter -/
+
+/-- The transcribed loop (block refills, unhashed prefix `pre`, incremental scan across blocks, EOF tail) computes
+exactly the one-pass cut function `cutRab` — for ANY parameters, also degenerate ones. -/
+theorem c06_rab_eq_spec {σ : Type} (A : Rab σ) (hblk : 0 < A.blk) (rd : Rd) :
+    rabChunks A rd = specChunks (cutRab A) (rd.data.length + 1) 0 rd.data :=
+  rabChunks_eq A hblk rd
+
+theorem c06_rab_concat {σ : Type} (A : Rab σ) (hblk : 0 < A.blk) (rd : Rd) : (rabChunks A rd).flatten = rd.data := by
+  rw [rabChunks_eq A hblk]; exact spec_flatten (cutRab_ok A) _ _ _ (by omega)
+
+theorem c06_rab_nonempty {σ : Type} (A : Rab σ) (hblk : 0 < A.blk) (rd : Rd) : ∀ c ∈ rabChunks A rd, c ≠ [] := by
+  rw [rabChunks_eq A hblk]; exact spec_nonempty (cutRab_ok A) _ _ _
+
+theorem c06_rab_minmax {σ : Type} (A : Rab σ) (h : RabOk A) (rd : Rd) :
+    (∀ c ∈ rabChunks A rd, c.length ≤ A.max) ∧ (∀ c ∈ (rabChunks A rd).dropLast, A.min ≤ c.length) := by
+  rw [rabChunks_eq A h.2.2.2.2]
+  exact ⟨spec_le (fun off d _ => cutRab_le_max A h off d) _ _ _,
+    spec_dropLast_ge (cutRab_ok A) (fun off d hlt => cutRab_ge_min A off d hlt) _ _ _⟩
+
+theorem c06_rab_frag_indep {σ : Type} (A : Rab σ) (hblk : 0 < A.blk) (d : Bytes) (f1 f2 : List Nat) (e1 e2 : Bool) :
+    rabChunks A { data := d, frags := f1, eofWithData := e1 } =
+    rabChunks A { data := d, frags := f2, eofWithData := e2 } := by
+  rw [rabChunks_eq A hblk, rabChunks_eq A hblk]
+
+/-- The defect behind the parser fix, as a theorem about the transcribed loop: with `MinSize < windowSize` the
+uint64 subtraction `MinSize - windowSize` wraps and every input (shorter than 2^64 - 16 bytes) is ONE chunk,
+whatever `MaxSize` is. -/
+theorem c06_rab_small_min_one_chunk {σ : Type} (A : Rab σ) (hblk : 0 < A.blk) (hmin : A.min < A.win)
+    (hw : A.win ≤ 2 ^ 64) (rd : Rd) (hne : rd.data ≠ []) (hlen : rd.data.length ≤ 2 ^ 64 - A.win) :
+    rabChunks A rd = [rd.data] := by
+  rw [rabChunks_eq A hblk]
+  have hl : 0 < rd.data.length := List.length_pos_iff.mpr hne
+  obtain ⟨n, hn⟩ : ∃ n, rd.data.length = n + 1 := ⟨rd.data.length - 1, by omega⟩
+  rw [hn]
+  simp only [specChunks, hne, if_false, cutRab_small_min A hmin hw 0 rd.data hlen, List.take_length, List.drop_length]
+  cases n <;> simp [specChunks]
+
 /-! ### the parser, and the property for every accepted spec string -/
 
 /-- every spec string the parser accepts yields parameters satisfying the side conditions above -/
@@ -100,7 +138,7 @@ theorem c06_concat {σ : Type} (L : Limits) (hL : L.ok) (P : BuzP) (hP : BuzFits
   cases spec with
   | size n => exact c06_size_concat rd n hw.1
   | buzhash => exact c06_buz_concat P hP.1 rd
-  | rabin mn avg mx => exact c06_cdc_concat _ ⟨hw.2.2.1, hw.2.1, hblk⟩ rd
+  | rabin mn avg mx => exact c06_rab_concat _ hblk rd
 
 theorem c06_nonempty {σ : Type} (L : Limits) (hL : L.ok) (P : BuzP) (hP : BuzFits L P) (blk : Nat) (hblk : 0 < blk)
     (init : Nat → σ) (upd : σ → UInt8 → σ) (isB : σ → Bool) (s : String) (spec : Spec)
@@ -110,7 +148,7 @@ theorem c06_nonempty {σ : Type} (L : Limits) (hL : L.ok) (P : BuzP) (hP : BuzFi
   cases spec with
   | size n => exact c06_size_nonempty rd n hw.1
   | buzhash => exact c06_buz_nonempty P hP.1 rd
-  | rabin mn avg mx => exact c06_cdc_nonempty _ ⟨hw.2.2.1, hw.2.1, hblk⟩ rd
+  | rabin mn avg mx => exact c06_rab_nonempty _ hblk rd
 
 /-- no chunk exceeds `ChunkSizeLimit` -/
 theorem c06_le_limit {σ : Type} (L : Limits) (hL : L.ok) (P : BuzP) (hP : BuzFits L P) (blk : Nat) (hblk : 0 < blk)
@@ -123,8 +161,9 @@ theorem c06_le_limit {σ : Type} (L : Limits) (hL : L.ok) (P : BuzP) (hP : BuzFi
   | size n => have := (c06_size_minmax rd n hw.1).1 c hc; have := hw.2; omega
   | buzhash => have := (c06_buz_minmax P hP.1 rd).1 c hc; have := hP.2; omega
   | rabin mn avg mx =>
-    have := (c06_cdc_minmax (σ := σ) { min := mn, max := mx, blk := blk, init := init, upd := upd, isB := isB }
-      ⟨hw.2.2.1, hw.2.1, hblk⟩ rd).1 c hc
+    have := (c06_rab_minmax (σ := σ) { min := mn, max := mx, blk := blk, win := 16, init := init, upd := upd, isB := isB }
+      ⟨Nat.succ_pos 15, by have := hL.1; have := hw.1; show 16 ≤ mn; omega, hw.2.1,
+       by have := hL.2.1; have := hw.2.1; have := hw.2.2.2; show mn < 2 ^ 64; omega, hblk⟩ rd).1 c hc
     have := hw.2.2.2
     simp only at *; omega
 
@@ -141,8 +180,9 @@ theorem c06_minmax {σ : Type} (L : Limits) (hL : L.ok) (P : BuzP) (hP : BuzFits
     exact ⟨this.1, fun c hc => by have := this.2 c hc; simp only [Spec.lo]; omega⟩
   | buzhash => exact c06_buz_minmax P hP.1 rd
   | rabin mn avg mx =>
-    exact c06_cdc_minmax (σ := σ) { min := mn, max := mx, blk := blk, init := init, upd := upd, isB := isB }
-      ⟨hw.2.2.1, hw.2.1, hblk⟩ rd
+    exact c06_rab_minmax (σ := σ) { min := mn, max := mx, blk := blk, win := 16, init := init, upd := upd, isB := isB }
+      ⟨Nat.succ_pos 15, by have := hL.1; have := hw.1; show 16 ≤ mn; omega, hw.2.1,
+       by have := hL.2.1; have := hw.2.1; have := hw.2.2.2; show mn < 2 ^ 64; omega, hblk⟩ rd
 
 /-- chunk boundaries depend only on the input bytes, not on the read fragmentation -/
 theorem c06_frag_indep {σ : Type} (L : Limits) (hL : L.ok) (P : BuzP) (hP : BuzFits L P) (blk : Nat) (hblk : 0 < blk)
@@ -154,7 +194,36 @@ theorem c06_frag_indep {σ : Type} (L : Limits) (hL : L.ok) (P : BuzP) (hP : Buz
   cases spec with
   | size n => exact c06_size_frag_indep d f1 f2 e1 e2 n hw.1
   | buzhash => exact c06_buz_frag_indep P hP.1 d f1 f2 e1 e2
-  | rabin mn avg mx => exact c06_cdc_frag_indep _ ⟨hw.2.2.1, hw.2.1, hblk⟩ d f1 f2 e1 e2
+  | rabin mn avg mx => exact c06_rab_frag_indep _ hblk d f1 f2 e1 e2
+
+/-! ### registry -/
+
+/-- `Register` is add-only: a successful registration leaves the meaning of every spec string whose chunker name
+was already registered (and of "" / "default") unchanged; in particular built-in specs keep their parse. -/
+theorem c06_register_preserves (L : Limits) (reg reg' : Registry) (n : List Char) (h : register reg n = some reg')
+    (cs : List Char) (hk : cs = [] ∨ cs = ['d', 'e', 'f', 'a', 'u', 'l', 't'] ∨ (splitOn '-' cs).head! ∈ reg) :
+    parseWith L reg' cs = parseWith L reg cs :=
+  parseWith_register L reg reg' n h cs hk
+
+/-- a built-in name cannot be re-registered (the call panics), so built-ins cannot be shadowed -/
+theorem c06_register_builtin_panics (reg : Registry) (n : List Char) (hb : ∀ m ∈ builtinNames, m ∈ reg)
+    (hn : n ∈ builtinNames) : register reg n = none :=
+  register_builtin_panics reg n hb hn
+
+/-- with only the built-ins registered, `parseWith` is `parseChars` -/
+theorem c06_parseWith_builtin (L : Limits) (cs : List Char) :
+    parseWith L builtinNames cs = (parseChars L cs).map .builtin := by
+  unfold parseWith parseChars
+  by_cases hd : cs = [] ∨ cs = ['d', 'e', 'f', 'a', 'u', 'l', 't']
+  · simp only [hd, if_true, Option.map_some]
+  · simp only [hd, if_false]
+    by_cases hin : (splitOn '-' cs).head! ∈ builtinNames
+    · simp only [hin, if_true, parseChars, hd, if_false]
+    · simp only [hin, if_false]
+      have h1 : (splitOn '-' cs).head! ≠ ['s', 'i', 'z', 'e'] := fun h => hin (by rw [h]; decide)
+      have h2 : (splitOn '-' cs).head! ≠ ['r', 'a', 'b', 'i', 'n'] := fun h => hin (by rw [h]; decide)
+      have h3 : (splitOn '-' cs).head! ≠ ['b', 'u', 'z', 'h', 'a', 's', 'h'] := fun h => hin (by rw [h]; decide)
+      simp only [h1, h2, h3, if_false, Option.map_none]
 
 /-! ### non-vacuity: the extracted constants satisfy the hypotheses; the parser accepts and rejects -/
 
@@ -175,5 +244,15 @@ example : sizeChunks { data := [1, 2, 3, 4, 5], frags := [1, 0, 3], eofWithData 
 /-- a generic chunker that cuts after every byte equal to 0, with min 2 and max 4 -/
 example : cdcChunks { min := 2, max := 4, blk := 3, init := fun _ => false, upd := fun _ b => b == 0, isB := id }
     { data := [7, 0, 0, 1, 1, 1, 1, 1, 0, 5], frags := [1, 2] } = [[7, 0], [0, 1, 1, 1], [1, 1, 0], [5]] := by decide
+/-- the transcribed rabin loop on the same input (window 1: the first byte of every chunk is not hashed),
+refills of 3 bytes, fragmented reader -/
+example : rabChunks { min := 2, max := 4, blk := 3, win := 1, init := fun _ => false, upd := fun _ b => b == 0, isB := id }
+    { data := [7, 0, 0, 1, 1, 1, 1, 1, 0, 5], frags := [1, 2] } = [[7, 0], [0, 1, 1, 1], [1, 1, 0], [5]] := by decide
+/-- min < window: one chunk, although max = 4 -/
+example : rabChunks { min := 2, max := 4, blk := 3, win := 16, init := fun _ => false, upd := fun _ b => b == 0, isB := id }
+    { data := [7, 0, 0, 1, 1, 1, 1, 1, 0, 5] } = [[7, 0, 0, 1, 1, 1, 1, 1, 0, 5]] := by decide
+example : register builtinNames ['v', 'x'] = some (['v', 'x'] :: builtinNames) := by decide
+example : register builtinNames ['v', '-', 'x'] = none := by decide
+example : parseWith goLimits (['v', 'x'] :: builtinNames) ['v', 'x', '-', '9'] = some (.custom ['v', 'x']) := by decide
 
 end C06
